@@ -174,6 +174,12 @@ func polyDeviation(deviator int, kind string) func(node int, op *types.Operation
 				if json.Unmarshal(res.ResultMsgs[i].Data, &req) != nil {
 					continue
 				}
+				if kind == "same-key-no-polynomial" {
+					// what a node of the 0.1.4 generation announces: the key alone
+					req.PubPolyBz = nil
+					res.ResultMsgs[i].Data, _ = json.Marshal(req)
+					continue
+				}
 				suite := oracle.Suite()
 				kr, err := dkg.LoadPubPolyBLSKeyringFromBytes(suite, req.PubPolyBz)
 				if err != nil {
@@ -244,7 +250,7 @@ func c02(tier string, args []string) int {
 			continue
 		}
 		for dev := 0; dev < nt.n; dev++ {
-			for _, kind := range []string{"same-key-other-polynomial", "other-key", "other-key-same-polynomial"} {
+			for _, kind := range []string{"same-key-other-polynomial", "other-key", "other-key-same-polynomial", "same-key-no-polynomial"} {
 				if r.TimeUp() {
 					break
 				}
